@@ -58,6 +58,7 @@ class Family:
         self.L = lexeme_spec()
         self.classes = dict(self.L.lexeme_classes())
         self.classes.update(self.L.line_classes())
+        self.classes.update(self.L.other_classes())
         self.f_lexed_new = self.kit.prog.methods.get(("LexedStr", None, "new"))
         self.ex = Exec(self.kit.prog, self.kit.models, max_steps=2000000)
         self._cons = {}
@@ -176,7 +177,7 @@ class PairHarness:
         text = self.kit.concrete_string(self.s, model)
         t = self.task
         cls = f"{t[1]}+{t[3]}" if t[0] == "pair" else str(t[1])
-        return ("fail", outcome, f"{outcome}|{cls}|{detail['msg'][:160]}", text, list(t))
+        return ("fail", outcome, f"{outcome}|{cls}|{detail['msg'][:400]}", text, list(t))
 
 
 def famfactory(seed):
@@ -230,6 +231,16 @@ def run(ctx):
             for b in ("identifier", "int_decimal", "punct_SEMICOLON"):
                 for sep in ("\n", "\r\n", "\r"):
                     tasks.append(("pair", a, ia, b, 0, sep))
+    others = L.other_classes()
+    for ia in range(len(others["block_comment"][1])):
+        for b in ("identifier", "int_decimal", "punct_SEMICOLON", "punct_STAR"):
+            for sep in ("", " ", "\n"):
+                tasks.append(("pair", "block_comment", ia, b, 0, sep))
+                if b != "punct_STAR":
+                    tasks.append(("pair", b, 0, "block_comment", ia, " " if b != "punct_SEMICOLON" else sep))
+    for ia in range(len(others["version_header"][1])):
+        for sep in ("", " ", "\n", "/**/", " //c\n", "\r\n"):
+            tasks.append(("pair", "version_header", ia, "punct_SEMICOLON", 0, sep))
     for w in L.KEYWORDS:
         if w != "OPENQASM":
             tasks.append(("kwn", w, "after")); tasks.append(("kwn", w, "before"))
@@ -281,6 +292,12 @@ def run(ctx):
             res.inconclusive.append(f"counterexample does not reproduce natively: {site} e.g. {text!r}")
             continue
         res.validated += 1
+        kf = next((k for k in ctx.known if re.search(k["site"], site)), None)
+        if kf is not None:
+            line = f"{kf['id']}: {kf.get('what', '')}"
+            if not any(h.startswith(kf["id"] + ":") for h in res.known_hits):
+                res.known_hits.append(line + f" (e.g. {text!r})")
+            continue
         what = {"site": site, "paths": info["count"], "text": text, "arrangement": task, "native_token_table": shown}
         rp = os.path.join(ctx.replay_dir, "lexeme_" + hashlib.sha1(site.encode()).hexdigest()[:10] + ".json")
         json.dump({"property": "C15", "text": text, "task": task, "what": what}, open(rp, "w"), indent=1)
@@ -307,7 +324,7 @@ def confirm_concrete(kit, task, text):
     K = kit.K
     trivia = (K["WHITESPACE"], K["COMMENT"])
     toks = [(k, t) for k, t in zip(o["kinds"], o["texts"]) if k not in trivia]
-    classes = dict(L.lexeme_classes()); classes.update(L.line_classes())
+    classes = dict(L.lexeme_classes()); classes.update(L.line_classes()); classes.update(L.other_classes())
     if task[0] == "kwn":
         w, side = task[1], task[2]
         x = text[-1] if side == "after" else text[0]
